@@ -44,6 +44,7 @@ class Scratch(object):
             if rc:
                 rc, out = sh(["git", "-C", self.dir, "apply", "--3way", "--whitespace=nowarn", self.patch])
                 if rc:
+                    self.__exit__()
                     raise SystemExit("patch does not apply to the current HEAD: " + out)
         return self.dir
 
